@@ -106,7 +106,7 @@ def g1(seed, ntx=12, nops=25, universe=64, reads_every=True, rollback=0.15, reop
             elif r < 0.60:
                 h.emit("del %d %d %s" % (t, bh, k))
             elif r < 0.70:
-                kind = rng.choice(["goc", "goc", "create", "getb"])
+                kind = rng.choice(["goc", "goc", "create", "getb"] + ([] if engine else ["getbi"]))
                 par = rng.choice([0] + handles)
                 nm = rng.choice(names)
                 nh = h.bucket(kind, t, par, nm)
@@ -466,6 +466,18 @@ def g8(seed, shape="multi"):
     if nk and rng.random() < 0.7:
         s = h.bucket("create", t, b, keys[nk // 2] + "+73")
         h.emit("put %d %d %s %s" % (t, s, hx("x"), hx("y")))
+    # the extreme keys are sometimes STORED, not only probed: the zero-length key (as a pair or as a nested bucket's name),
+    # the smallest non-empty key, a key above every other
+    r0 = rng.random()
+    if r0 < 0.3:
+        h.emit("put %d %d - %s" % (t, b, hx("empty")))
+    elif r0 < 0.55:
+        s = h.bucket("create", t, b, "-")
+        h.emit("put %d %d %s %s" % (t, s, hx("x"), hx("y")))
+    if rng.random() < 0.3:
+        h.emit("put %d %d 00 %s" % (t, b, hx("zero")))
+    if rng.random() < 0.3:
+        h.emit("put %d %d ffff %s" % (t, b, hx("top")))
     h.commit(t)
 
     def all_reads(t, b, sample_pairs):
@@ -627,7 +639,13 @@ def g_c6(seed):
             h.emit("filehash=")
         elif r < 0.8:
             x = h.begin(False)
-            xa = h.bucket("getb", x, 0, hx("A"))
+            # handles from every construction site: get_bucket, and the Bucket values yielded by the buckets() iterators
+            xa = h.bucket(rng.choice(["getb", "getbi"]), x, 0, hx("A"))
+            xm = h.bucket(rng.choice(["getb", "getbi"]), x, xa, hx("M"))
+            for line in ["put %d %d %s %s" % (x, xm, hx("k"), hx("v")), "del %d %d %s" % (x, xm, keys[0]),
+                         "create %d %d %s 85" % (x, xm, hx("z")), "goc %d %d %s 86" % (x, xm, hx("y")),
+                         "delb %d %d %s" % (x, xm, hx("nope")), "scan %d %d" % (x, xm)]:
+                h.emit(line)
             for line in ["put %d %d %s %s" % (x, xa, hx("k"), hx("v")), "del %d %d %s" % (x, xa, keys[0]),
                          "create %d %d %s 95" % (x, xa, hx("z")), "goc %d %d %s 96" % (x, xa, hx("M")),
                          "delb %d %d %s" % (x, xa, hx("M")), "create %d 0 %s 97" % (x, hx("Z")),
@@ -737,10 +755,11 @@ def g10(seed, workload, ntx=300, pin=(100, 150), reopen_every=0):
     rng = random.Random(seed)
     h = H()
     keys = [hx("k%03d" % i) for i in range(40)]
+    big = [hx("big%04d" % i) for i in range(400)]
     t = h.begin(True)
     b = h.bucket("create", t, 0, hx("b"))
     for k in keys:
-        h.emit("put %d %d %s %s" % (t, b, k, {"fixed1": "r100:1", "fixedN": "r2500:1", "var": "r300:1", "bdel": "r100:1", "bdelN": "r100:1"}[workload]))
+        h.emit("put %d %d %s %s" % (t, b, k, {"fixed1": "r100:1", "fixedN": "r2500:1", "var": "r300:1", "bdel": "r100:1", "bdelN": "r100:1", "bigfree": "r100:1"}[workload]))
     h.emit("commit %d" % t)
     h.emit("snap")
     reader = None
@@ -754,9 +773,19 @@ def g10(seed, workload, ntx=300, pin=(100, 150), reopen_every=0):
                     h.emit("dump %d" % rd_)
                     h.emit("drop %d" % rd_)
                     chain.remove((rd_, until))
+        elif pin == "shuffle":
+            # three readers on three different snapshots, closed oldest, newest, middle; then a pause with no reader
+            ph = i % 60
+            if ph in (5, 10, 15):
+                chain.append((h.begin(False), {5: 30, 15: 35, 10: 40}[ph] + i - ph))
+            for (rd_, until) in list(chain):
+                if i >= until:
+                    h.emit("dump %d" % rd_)
+                    h.emit("drop %d" % rd_)
+                    chain.remove((rd_, until))
         elif pin and i == pin[0]:
             reader = h.begin(False)
-        if pin and pin != "chain" and i == pin[1] and reader is not None:
+        if pin and pin not in ("chain", "shuffle") and i == pin[1] and reader is not None:
             h.emit("dump %d" % reader)
             h.emit("drop %d" % reader)
             reader = None
@@ -775,6 +804,14 @@ def g10(seed, workload, ntx=300, pin=(100, 150), reopen_every=0):
                     h.emit("del %d %d %s" % (t, b, k))
                 else:
                     h.emit("put %d %d %s %s" % (t, b, k, rval(rng, [0, 16, 100, 300, 700, 1500, 3000])))
+        elif workload == "bigfree":
+            # every other transaction frees several hundred pages at once: the free list itself spans several pages
+            if i % 2 == 0:
+                for k in big:
+                    h.emit("put %d %d %s r700:%d" % (t, b, k, i % 256))
+            else:
+                for k in big:
+                    h.emit("del %d %d %s" % (t, b, k))
         elif workload == "bdelN":
             if i % 2 == 0:
                 s = h.bucket("create", t, b, hx("tmp"))
@@ -794,7 +831,7 @@ def g10(seed, workload, ntx=300, pin=(100, 150), reopen_every=0):
             h.emit("put %d %d %s r100:%d" % (t, b, rng.choice(keys), rng.randrange(256)))
         h.emit("commit %d" % t)
         h.emit("snap")
-        if reopen_every and (i + 1) % reopen_every == 0 and reader is None:
+        if reopen_every and (i + 1) % reopen_every == 0 and reader is None and not chain:
             h.emit("reopen")
     if reader is not None:
         h.emit("drop %d" % reader)
